@@ -11,7 +11,8 @@ import dimod
 import wlib
 from wlib import clist
 import gen
-from gen import F, enc_label, dec_label
+from gen import F
+from codecgen import enc_label, dec_label
 import codecgen as G
 from codecgen import state_of, diff_state, load_as, cbytes
 
@@ -24,7 +25,7 @@ def gen_case(rng, tier):
     c = {"kind": kind, "spool": rng.choice(SPOOLS), "how": rng.choice(HOWS)}
     if kind == 'bqm':
         n = rng.randint(0, 6)
-        labels = G.pick_labels(rng, n)
+        labels = G.pick_labels(rng, n, np_p=0.25)
         c["dtype"] = rng.choice(['float64', 'float64', 'float32', 'object'])
         c["desc"] = G.rand_desc(rng, labels, kinds=('BINARY', 'SPIN'), single_vartype=True,
                                 kmax=6 if c["dtype"] == 'float32' else 8, jmax=1 if c["dtype"] == 'float32' else 2)
@@ -34,15 +35,16 @@ def gen_case(rng, tier):
         c["ignore_labels"] = rng.random() < 0.25
     elif kind == 'qm':
         n = rng.randint(0, 6)
-        labels = G.pick_labels(rng, n)
+        labels = G.pick_labels(rng, n, np_p=0.25)
         c["dtype"] = rng.choice(['float64', 'float64', 'float32'])
-        c["desc"] = G.rand_desc(rng, labels, kmax=6 if c["dtype"] == 'float32' else 8, jmax=1 if c["dtype"] == 'float32' else 2)
+        c["desc"] = G.rand_desc(rng, labels, kmax=6 if c["dtype"] == 'float32' else 8, jmax=1 if c["dtype"] == 'float32' else 2,
+                                real_q=rng.random() < 0.25)
     elif kind == 'cqm':
-        c["cqm"] = G.rand_cqm_desc(rng, shaped_p=0.6)
+        c["cqm"] = G.rand_cqm_desc(rng, shaped_p=0.6, np_p=0.3, real_q_p=0.35)
         c["compress"] = rng.random() < 0.4
         c["check_header"] = rng.random() < 0.8
     elif kind == 'dqm':
-        c["dqm"] = G.rand_dqm_desc(rng)
+        c["dqm"] = G.rand_dqm_desc(rng, np_p=0.3)
         c["compress"] = rng.random() < 0.4
         c["ignore_labels"] = rng.random() < 0.3
     else:
